@@ -109,7 +109,6 @@ Definition f_length (l : value) : res :=
     | VArgs p => length p
     | VList items _ _ => length items
     | VMap m => length m
-    | VNull => 0%nat
     | _ => 1%nat
     end)).
 
